@@ -157,17 +157,20 @@ def structure_stream(run, drv):
         ops = []
         if rank:
             d = run.rng.randrange(rank)
-            ops.append(("unbind", d, lambda t, d=d: list(t.unbind(d)), sx("c16.unbind", N.to_sx(spec), d),
+            ds = N.spell(run.rng, d, rank)
+            ops.append(("unbind", ds, lambda t, ds=ds: list(t.unbind(ds)), sx("c16.unbind", N.to_sx(spec), d),
                         lambda d=d, a=a, shape=shape: [N.take(a, i, d) for i in range(shape[d])]))
             ones = [i for i, s in enumerate(shape) if s == 1]
             if ones:
                 d1 = run.rng.choice(ones)
-                ops.append(("squeeze", d1, lambda t, d1=d1: t.squeeze(d1), sx("c16.squeeze", N.to_sx(spec), d1), lambda d1=d1, a=a: np.squeeze(a, axis=d1)))
+                d1s = N.spell(run.rng, d1, rank)
+                ops.append(("squeeze", d1s, lambda t, d1s=d1s: t.squeeze(d1s), sx("c16.squeeze", N.to_sx(spec), d1), lambda d1=d1, a=a: np.squeeze(a, axis=d1)))
             p = list(range(rank))
             run.rng.shuffle(p)
             ops.append(("permute", tuple(p), lambda t, p=p: t.permute(*p), sx("c16.permute", N.to_sx(spec), p), lambda p=p, a=a: np.transpose(a, p)))
         du = run.rng.randint(0, rank)
-        ops.append(("unsqueeze", du, lambda t, du=du: t.unsqueeze(du), sx("c16.unsqueeze", N.to_sx(spec), du), lambda du=du, a=a: np.expand_dims(a, du)))
+        dus = N.spell(run.rng, du, rank + 1)
+        ops.append(("unsqueeze", dus, lambda t, dus=dus: t.unsqueeze(dus), sx("c16.unsqueeze", N.to_sx(spec), du), lambda du=du, a=a: np.expand_dims(a, du)))
         ops.append(("maybe_to_stack", None, None, sx("c16.tostack", N.to_sx(spec)), lambda a=a: a))
         name, arg, f, req, want_fn = run.rng.choice(ops)
         # the holder may realise an op by other means than the entry's own method (e.g. indexing): half of the time the entry is asked
@@ -176,7 +179,12 @@ def structure_stream(run, drv):
         try:
             with time_limit(10):
                 if name == "maybe_to_stack":
-                    res = td.get("a").maybe_to_stack()
+                    if spec[0] == "sh" and run.rng.random() < 0.5:
+                        # the other public spelling of the promotion (what `_set_item` uses for shared / memory-mapped holders)
+                        case["op"] = "from_nontensordata"
+                        res = NonTensorStack.from_nontensordata(td.get("a"))
+                    else:
+                        res = td.get("a").maybe_to_stack()
                     impl = ["ok", N.read(res)]
                     tl = N.tolist_ids(res)
                 elif name == "unbind":
@@ -225,10 +233,11 @@ def structure_stream(run, drv):
         specs = [N.represent(x, run.rng, p_shared=0.8) for x in arrays]
         dim = run.rng.randint(0, len(shape))
         tds = [N.holder(s, shape) for s in specs]
-        case = {"op": "stack", "dim": dim, "specs": [str(s) for s in specs]}
+        dims = N.spell(run.rng, dim, len(shape) + 1)
+        case = {"op": "stack", "dim": dims, "specs": [str(s) for s in specs]}
         try:
             with time_limit(10):
-                res = torch.stack(tds, dim).get("a")
+                res = torch.stack(tds, dims).get("a")
             impl = ["ok", N.read(res)]
             tl = N.tolist_ids(res)
         except TimeoutError:
@@ -372,39 +381,43 @@ def reshape_stream(run, drv):
             i = run.rng.randrange(rank - 1)
             j = run.rng.randrange(i + 1, rank)
             target = shape[:i] + [int(np.prod(shape[i:j + 1]))] + shape[j + 1:]
-            name, arg = "flatten", (i, j)
-            f = lambda t, i=i, j=j: t.flatten(i, j).get("a")                    # noqa: E731
+            i_s, j_s = N.spell(run.rng, i, rank), N.spell(run.rng, j, rank)
+            name, arg = "flatten", (i_s, j_s)
+            f = lambda t, i=i_s, j=j_s: t.flatten(i, j).get("a")                    # noqa: E731
             req = sx("c16.reshape", N.to_sx(spec), target)
             want_fn = lambda a=a, target=target: nested(a.reshape(target))     # noqa: E731
         elif r < 0.8:
             d = run.rng.randrange(rank)
             sizes = _factorisations(shape[d], run.rng)
             target = shape[:d] + sizes + shape[d + 1:]
-            name, arg = "unflatten", (d, tuple(sizes))
-            f = lambda t, d=d, sizes=sizes: t.unflatten(d, sizes).get("a")      # noqa: E731
+            ds = N.spell(run.rng, d, rank)
+            name, arg = "unflatten", (ds, tuple(sizes))
+            f = lambda t, d=ds, sizes=sizes: t.unflatten(d, sizes).get("a")      # noqa: E731
             req = sx("c16.reshape", N.to_sx(spec), target)
             want_fn = lambda a=a, target=target: nested(a.reshape(target))     # noqa: E731
         elif r < 0.9:
             d = run.rng.randrange(rank)
             size = run.rng.randint(1, shape[d] + 1)
-            name, arg = "split", (size, d)
+            ds = N.spell(run.rng, d, rank)
+            name, arg = "split", (size, ds)
             # (the holder slices its entries by indexing; the entry's own `split` — `_lazy.py:split` for a stack — is asked directly half of the time)
             if run.rng.random() < 0.5:
                 name = "split(entry)"
-                f = lambda t, size=size, d=d: list(t.get("a").split(size, d))       # noqa: E731
+                f = lambda t, size=size, d=ds: list(t.get("a").split(size, d))       # noqa: E731
             else:
-                f = lambda t, size=size, d=d: [x.get("a") for x in t.split(size, d)]   # noqa: E731
+                f = lambda t, size=size, d=ds: [x.get("a") for x in t.split(size, d)]   # noqa: E731
             req = sx("c16.split", N.to_sx(spec), size, d)
             want_fn = lambda a=a, size=size, d=d: [nested(x) for x in np.split(a, list(range(size, a.shape[d], size)), axis=d)]  # noqa: E731
         else:
             d = run.rng.randrange(rank)
             k = run.rng.randint(1, shape[d] + 1)
-            name, arg = "chunk", (k, d)
+            ds = N.spell(run.rng, d, rank)
+            name, arg = "chunk", (k, ds)
             if run.rng.random() < 0.5:
                 name = "chunk(entry)"
-                f = lambda t, k=k, d=d: list(t.get("a").chunk(k, d))                # noqa: E731
+                f = lambda t, k=k, d=ds: list(t.get("a").chunk(k, d))                # noqa: E731
             else:
-                f = lambda t, k=k, d=d: [x.get("a") for x in t.chunk(k, d)]          # noqa: E731
+                f = lambda t, k=k, d=ds: [x.get("a") for x in t.chunk(k, d)]          # noqa: E731
             req = sx("c16.chunk", N.to_sx(spec), k, d)
 
             def want_fn(a=a, k=k, d=d):
@@ -510,8 +523,12 @@ def nested_stream(run, drv):
         tl = want = None
         if r < 0.4:
             spec = N.represent(a, run.rng)
-            entry = N.build(spec)
-            data = entry.tolist()                           # real payloads (a list payload is a python list)
+            try:
+                entry = N.build(spec)
+                data = entry.tolist()                       # real payloads (a list payload is a python list)
+            except Exception as ex:  # noqa: BLE001
+                run.oracle_fail("tolist", {"op": "tolist (preparing from_list)", "spec": str(spec)}, f"raises {str(ex)[:120]}", fingerprint=f"tolist:raises:{impl_err(ex)}")
+                continue
             with_ndim = run.rng.random() < 0.5
             name = "from_list(ndim)" if with_ndim else "from_list"
             f = lambda data=data, with_ndim=with_ndim, rank=rank: NonTensorStack._from_list(data, device=None, ndim=rank if with_ndim else None)   # noqa: E731
@@ -535,12 +552,13 @@ def nested_stream(run, drv):
             holder_level = run.rng.random() < 0.5
             dev = N.pick_device(run.rng)
             name = "cat(holders)" if holder_level else "cat"
+            ds = N.spell(run.rng, d, len(shape))
             if holder_level:
-                f = lambda specs=specs, d=d, dev=dev, shapes=shapes: torch.cat([N.holder(sp, shp, dev) for sp, shp in zip(specs, shapes)], d).get("a")  # noqa: E731
+                f = lambda specs=specs, d=ds, dev=dev, shapes=shapes: torch.cat([N.holder(sp, shp, dev) for sp, shp in zip(specs, shapes)], d).get("a")  # noqa: E731
             else:
-                f = lambda specs=specs, d=d: NonTensorData._cat_non_tensor([N.build(sp) for sp in specs], d)   # noqa: E731
+                f = lambda specs=specs, d=ds: NonTensorData._cat_non_tensor([N.build(sp) for sp in specs], d)   # noqa: E731
             req = sx("c16.cat", d, *[N.to_sx(sp) for sp in specs])
-            case = {"op": name, "dim": d, "specs": [str(sp) for sp in specs]}
+            case = {"op": name, "dim": ds, "specs": [str(sp) for sp in specs]}
             want = nested(np.concatenate([a] + [o[1] for o in others], axis=d))
         else:
             a = no_list_payload(a)
@@ -639,3 +657,45 @@ def update_entry_stream(run, drv):
             # an array of objects can always be overwritten by another of the same shape: a refusal depends on how the two entries
             # happen to be represented (a shared node of the destination facing a stacked part of the source)
             run.oracle_fail("update-entry", case, f"same batch shape, yet the in-place update is refused: {impl[2]}", fingerprint=f"update-entry:{case['op']}:refused")
+
+
+def update_at_entry_stream(run):
+    """`entry.update_at_(value, index)` on the entry itself (oracle only): an entry may refuse a partial update (a shared node cannot
+    take a part: explicit error, counted); when it accepts, exactly the selected positions hold the new object."""
+    n = 300 if run.tier == "quick" else 2500
+    for _ in range(n):
+        shape = N.gen_shape(run.rng, 3)
+        if not shape:
+            continue
+        a = N.gen_array(run.rng, shape, constant=True if run.rng.random() < 0.4 else None)
+        spec = N.represent(a, run.rng)
+        idx, _ = N.gen_index(run.rng, shape, allow_none=False, in_range=True)
+        try:
+            pos = N.positions(shape, idx if isinstance(idx, tuple) else (idx,))
+        except Exception:  # noqa: BLE001
+            continue
+        if pos.numel() == 0:
+            continue
+        used = set(a.reshape(-1))
+        fresh = run.rng.choice([i for i in N.IDS if i not in used] or N.IDS)
+        case = {"op": "update_at_(entry)", "spec": str(spec), "index": repr(idx), "value": fresh}
+        run.case(("update-at-entry", str(spec), repr(idx)), nontrivial=has_stack(spec))
+        try:
+            with time_limit(10):
+                e = N.build(spec)
+                e.update_at_(NonTensorData(N.payload(fresh), batch_size=list(pos.shape)), idx)
+                got = N.tolist_ids(e)
+        except TimeoutError:
+            raise
+        except Exception as ex:  # noqa: BLE001
+            run.count("update_at_entry.outcome", "refused:" + impl_err(ex))
+            continue
+        flat = a.reshape(-1).copy()
+        flat[pos.numpy().reshape(-1)] = fresh
+        want = nested(flat.reshape(shape))
+        run.count("update_at_entry.outcome", "written")
+        if got != want:
+            run.oracle_fail("update-at-entry", case, f"content {str(got)[:150]} expected {str(want)[:150]}",
+                            fingerprint=f"update-at-entry:{'stack' if has_stack(spec) else 'shared'}:content")
+        else:
+            run.oracle_ok("update-at-entry")
